@@ -210,7 +210,8 @@ pub fn find_module(
 
     // First, check for a neighboring file with a matching name.
     let extension = "koto";
-    let result = search_folder.join(module_name).with_extension(extension);
+    // Note that `with_extension` would replace the part of a module name that follows a dot.
+    let result = search_folder.join(format!("{module_name}.{extension}"));
     if result.exists() {
         // The path is used as the module's key in the module cache, so it needs to be the same
         // path regardless of how the module was referred to (e.g. `shared` and `'../dir/shared'`).
